@@ -9,6 +9,7 @@ use sophia_api::term::matcher::{GraphNameMatcher, TermMatcher};
 use sophia_api::term::GraphName;
 use std::collections::{BTreeSet, HashSet};
 use verif_harness::*;
+use sophia_api::source::IntoSource;
 
 type Tid = u64;
 type T3 = [Tid; 3];
@@ -30,9 +31,11 @@ enum Op {
 enum Out { Flag(bool), Triples(Vec<T3>), Quads(Vec<Q4>), Count(u64), Terms(Vec<Tid>), Err(String) }
 
 #[derive(Clone, Debug)]
-enum GOp { Insert(Q4), Remove(Q4), Contains(Q4), Query(MD, MD, MD, GD), All, DirectInsert(T3), DirectRemove(T3) }
+enum GOp { Insert(Q4), Remove(Q4), Contains(Q4), Query(MD, MD, MD, GD), All, DirectInsert(T3), DirectRemove(T3),
+           /// bulk mutations through the dataset view (inherited MutableDataset methods, or overrides of them)
+           RemoveAll(Vec<Q4>), InsertAll(Vec<T3>) }
 #[derive(Clone, Debug, PartialEq)]
-enum GOut { Ok(bool), OnlyDefault, Bool(bool), Quads(Vec<Q4>), Err(String) }
+enum GOut { Ok(bool), OnlyDefault, Bool(bool), Quads(Vec<Q4>), Err(String), Count(u64) }
 
 struct Ctx { pool: Vec<Vec<ST>> }
 impl Ctx {
@@ -158,6 +161,10 @@ where G: MutableGraph + Default, G::Error: std::fmt::Debug + std::error::Error, 
                 GOut::Quads(sort4(v))
             }
             GOp::All => { let mut v = vec![]; for q in d.quads() { let q = q.unwrap(); v.push(([c.id(q.s()), c.id(q.p()), c.id(q.o())], q.g().map(|g| c.id(g)))); } GOut::Quads(sort4(v)) }
+            GOp::RemoveAll(l) => { let qs: Vec<([ST; 3], Option<ST>)> = l.iter().map(|(t, gn)| ([c.term(t[0], r), c.term(t[1], r), c.term(t[2], r)], gn.map(|g| c.term(g, r)))).collect();
+                match d.remove_all(qs.into_iter().into_source()) { Ok(n) => GOut::Count(n as u64), Err(e) => GOut::Err(format!("{e:?}")) } }
+            GOp::InsertAll(l) => { let qs: Vec<([ST; 3], Option<ST>)> = l.iter().map(|t| ([c.term(t[0], r), c.term(t[1], r), c.term(t[2], r)], None)).collect();
+                match d.insert_all(qs.into_iter().into_source()) { Ok(n) => GOut::Count(n as u64), Err(e) => GOut::Err(format!("{e:?}")) } }
             GOp::DirectInsert(t) => { let mut g = d.unwrap(); let b = g.insert(c.term(t[0], r), c.term(t[1], r), c.term(t[2], r)).unwrap(); d = GraphAsDataset::new(g); GOut::Ok(b) }
             GOp::DirectRemove(t) => { let mut g = d.unwrap(); let b = g.remove(c.term(t[0], r), c.term(t[1], r), c.term(t[2], r)).unwrap(); d = GraphAsDataset::new(g); GOut::Ok(b) }
         };
@@ -208,12 +215,17 @@ fn oracle_ds(init: &[Q4], ops: &[Op]) -> Vec<Out> {
     }
     outs
 }
-fn oracle_gad(init: &[T3], ops: &[GOp]) -> Vec<GOut> {
+/// the plain-set oracle; second component: for each BULK operation, the sequence of single removals / insertions
+/// (with their flags) it must be equivalent to -- that is what the Coq model is given for it
+fn oracle_gad(init: &[T3], ops: &[GOp]) -> (Vec<GOut>, Vec<Vec<(GOp, GOut)>>) {
     let mut set: Vec<T3> = vec![];
     for t in init { if !set.contains(t) { set.push(*t) } }
-    let mut outs = vec![];
+    let mut outs = vec![]; let mut prim: Vec<Vec<(GOp, GOut)>> = vec![];
     for op in ops {
+        let mut ex: Vec<(GOp, GOut)> = vec![];
         outs.push(match op {
+            GOp::RemoveAll(l) => { let mut n = 0; for (t, g) in l { let b = g.is_none() && set.contains(t); if b { set.retain(|x| x != t); n += 1; } ex.push((GOp::Remove((*t, *g)), GOut::Ok(b))); } GOut::Count(n) }
+            GOp::InsertAll(l) => { let mut n = 0; for t in l { let b = !set.contains(t); if b { set.push(*t); n += 1; } ex.push((GOp::Insert((*t, None)), GOut::Ok(b))); } GOut::Count(n) }
             GOp::Insert((t, None)) | GOp::DirectInsert(t) => { let b = !set.contains(t); if b { set.push(*t) } GOut::Ok(b) }
             GOp::Insert((_, Some(_))) => GOut::OnlyDefault,
             GOp::Remove((t, None)) | GOp::DirectRemove(t) => { let b = set.contains(t); set.retain(|x| x != t); GOut::Ok(b) }
@@ -222,8 +234,9 @@ fn oracle_gad(init: &[T3], ops: &[GOp]) -> Vec<GOut> {
             GOp::Query(s, p, o, g) => GOut::Quads(sort4(set.iter().filter(|t| gd_ok(g, None) && t_ok(s, p, o, t)).map(|t| (*t, None)).collect())),
             GOp::All => GOut::Quads(sort4(set.iter().map(|t| (*t, None)).collect())),
         });
+        prim.push(ex);
     }
-    outs
+    (outs, prim)
 }
 
 // ---------- generation ----------
@@ -251,7 +264,9 @@ fn gen_op(r: &mut Rng) -> Op {
     }
 }
 fn gen_gop(r: &mut Rng) -> GOp {
-    match r.below(12) {
+    match r.below(14) {
+        12 => GOp::RemoveAll((0..r.range(1, 5)).map(|_| (gen_t3(r), *r.pick(&[None, None, Some(12), Some(4), Some(13)]))).collect()),
+        13 => GOp::InsertAll((0..r.range(1, 5)).map(|_| gen_t3(r)).collect()),
         0..=2 => GOp::Insert((gen_t3(r), *r.pick(&[None, None, None, Some(12), Some(4)]))),
         3..=5 => GOp::Remove((gen_t3(r), *r.pick(&[None, None, None, Some(12), Some(4)]))),
         6 => GOp::Contains((gen_t3(r), *r.pick(&[None, None, Some(12)]))),
@@ -295,6 +310,7 @@ fn c_gop(o: &GOp) -> String {
         GOp::Insert(q) => format!("GInsert {}", c_q4(q)), GOp::Remove(q) => format!("GRemove {}", c_q4(q)),
         GOp::Contains(q) => format!("GContains {}", c_q4(q)),
         GOp::Query(s, p, o, g) => format!("GQuery {} {} {} {}", c_md(s), c_md(p), c_md(o), c_gd(g)),
+        GOp::RemoveAll(..) | GOp::InsertAll(..) => unreachable!("bulk operations are given to Coq through their expansion"),
         GOp::All => "GAll".into(), GOp::DirectInsert(t) => format!("GDirectInsert {}", c_t3(t)), GOp::DirectRemove(t) => format!("GDirectRemove {}", c_t3(t)),
     }
 }
@@ -302,6 +318,7 @@ fn c_gout(o: &GOut) -> String {
     match o {
         GOut::Ok(b) => format!("GORes (GadOk {})", coq_bool(*b)), GOut::OnlyDefault => "GORes GadOnlyDefaultGraph".into(),
         GOut::Bool(b) => format!("GOBool {}", coq_bool(*b)), GOut::Quads(l) => format!("GOQuads {}", coq_list(l.iter().map(c_q4))),
+        GOut::Count(_) => unreachable!(),
         GOut::Err(_) => "GOBool true; GOBool false".into(),
     }
 }
@@ -326,8 +343,28 @@ non-trivial = at least one mutation through a view that changes the store AND at
         let nops = r.range(1, 40);
         let ninit = r.below(9);
         if idx % 2 == 0 {
-            let init: Vec<Q4> = (0..ninit).map(|_| (gen_t3(&mut r), gen_g(&mut r))).collect();
-            let ops: Vec<Op> = (0..nops).map(|_| gen_op(&mut r)).collect();
+            let mut init: Vec<Q4> = (0..ninit).map(|_| (gen_t3(&mut r), gen_g(&mut r))).collect();
+            // triples shared by several graphs (a union view then shows them several times)
+            for k in 0..init.len() { if r.chance(1, 3) { let t = init[k].0; init.push((t, gen_g(&mut r))); } }
+            // state-aware generation: `known` approximates the quads inserted so far (removals ignored)
+            let mut known: Vec<Q4> = init.clone();
+            let ops: Vec<Op> = (0..nops).map(|_| {
+                let one = |x: Tid| MD::OneOf(vec![x]);
+                if !known.is_empty() && r.chance(1, 6) {
+                    let (t, g) = *r.pick(&known);
+                    match r.below(7) {
+                        // the same triple in another graph, directly or through a view
+                        0 => { let q = (t, gen_g(&mut r)); known.push(q); Op::DInsert(q) }
+                        1 => { let g2 = gen_g(&mut r); known.push((t, g2)); Op::VInsert(g2, t) }
+                        // fully bound patterns on a triple that exists (possibly in several graphs)
+                        2 => Op::QUnion(one(t[0]), one(t[1]), one(t[2])),
+                        3 => Op::QPUnion(if r.chance(1, 2) { GD::Any } else { GD::OneOf(vec![g, gen_g(&mut r)]) }, one(t[0]), one(t[1]), one(t[2])),
+                        4 => Op::QGraph(g, one(t[0]), one(t[1]), one(t[2])),
+                        5 => Op::QDirect(one(t[0]), one(t[1]), one(t[2]), gen_gd(&mut r)),
+                        _ => Op::VRemove(gen_g(&mut r), t),
+                    }
+                } else { let o = gen_op(&mut r); match &o { Op::DInsert(q) => known.push(*q), Op::VInsert(g, t) => known.push((*t, *g)), _ => {} } o }
+            }).collect();
             let outs = match store {
                 0 => run_ds::<sophia_inmem::dataset::FastDataset>(&ctx, &init, &ops, &mut r),
                 1 => run_ds::<sophia_inmem::dataset::LightDataset>(&ctx, &init, &ops, &mut r),
@@ -361,20 +398,27 @@ non-trivial = at least one mutation through a view that changes the store AND at
                 4 => run_gad::<HashSet<[ST; 3]>>(&ctx, &init, &ops, &mut r),
                 _ => run_gad::<BTreeSet<[ST; 3]>>(&ctx, &init, &ops, &mut r),
             };
-            let exp = oracle_gad(&init, &ops);
+            let (exp, prim) = oracle_gad(&init, &ops);
             let text = format!("GraphAsDataset<{}> init={:?} ops={:?}", GR_STORES[store], init, ops);
             if a.only.is_some() { println!("CASE {idx}: {text}\nIMPL   {outs:?}\nORACLE {exp:?}"); }
             if outs != exp {
                 let k = outs.iter().zip(exp.iter()).position(|(x, y)| x != y).unwrap_or(0);
                 sum.oracle_failures.push((idx.to_string(), format!("store=GraphAsDataset<{}> op#{k} {:?}: implementation returned {:?}, a plain set gives {:?}; full case: {text}", GR_STORES[store], ops.get(k), outs.get(k), exp.get(k))));
             }
-            let changed = ops.iter().zip(outs.iter()).any(|(o, x)| matches!(o, GOp::Insert(..) | GOp::Remove(..)) && *x == GOut::Ok(true));
+            let changed = ops.iter().zip(outs.iter()).any(|(o, x)| (matches!(o, GOp::Insert(..) | GOp::Remove(..)) && *x == GOut::Ok(true)) || matches!(x, GOut::Count(n) if *n > 0));
             let nonempty = outs.iter().any(|x| matches!(x, GOut::Quads(l) if !l.is_empty()));
             if seen.insert(text.clone()) && changed && nonempty { sum.distinct_nontrivial += 1; }
             sum.bump(&format!("store:GraphAsDataset<{}>", GR_STORES[store]));
             for o in &ops { sum.bump(&format!("gop:{}", format!("{o:?}").split('(').next().unwrap())); }
             if sum.samples.len() < 3 { sum.samples.push(format!("case {idx}: {text} => {outs:?}")); }
-            cases.push((idx, format!("gcase_ok {} {} {}", coq_list(init.iter().map(c_t3)), coq_list(ops.iter().map(c_gop)), coq_list(outs.iter().map(c_gout)))));
+            // for Coq: single operations with the implementation's outputs; bulk operations through their expansion into
+            // single operations (flags from the plain-set oracle): the model then has to agree on every LATER observation
+            let (mut cops, mut couts) = (vec![], vec![]);
+            for (k, op) in ops.iter().enumerate() {
+                if matches!(op, GOp::RemoveAll(..) | GOp::InsertAll(..)) { for (o, x) in &prim[k] { cops.push(c_gop(o)); couts.push(c_gout(x)); } }
+                else { cops.push(c_gop(op)); couts.push(c_gout(&outs[k])); }
+            }
+            cases.push((idx, format!("gcase_ok {} {} {}", coq_list(init.iter().map(c_t3)), coq_list(cops), coq_list(couts))));
         }
         sum.evaluations += 1;
     }
